@@ -336,6 +336,33 @@ pub fn minimise(r: &Replay, budget_s: f64) -> Replay {
             }
         }
     }
+    // histories of operations (world / meta-table families): drop chunks of operations
+    if best.family != "D" && best.scenario.get("ops").and_then(|o| o.as_array()).is_some() {
+        let mut ops: Vec<Value> = best.scenario["ops"].as_array().unwrap().clone();
+        let mut chunk = (ops.len() / 2).max(1);
+        loop {
+            let mut i = 0;
+            while i < ops.len() && t0.elapsed().as_secs_f64() < budget_s {
+                let mut o2 = ops.clone();
+                let end = (i + chunk).min(o2.len());
+                o2.drain(i..end);
+                let mut cand = best.clone();
+                cand.scenario["ops"] = Value::Array(o2.clone());
+                if let Some((_t, digest, msg)) = same_class(r, &cand, &mut n) {
+                    ops = o2;
+                    best = cand;
+                    best.digest = digest;
+                    best.msg = msg;
+                } else {
+                    i += chunk;
+                }
+            }
+            if chunk == 1 || t0.elapsed().as_secs_f64() >= budget_s {
+                break;
+            }
+            chunk /= 2;
+        }
+    }
     // schedule: fewest context switches. Truncate, then zero entries in shrinking chunks.
     if let Some(tr) = best.trace.clone() {
         let mut tr = tr;
